@@ -97,7 +97,8 @@ impl LintGroupConfig {
     }
 
     pub fn set_rule_enabled_if_unset(&mut self, key: impl AsRef<str>, val: bool) {
-        if !self.inner.contains_key(key.as_ref()) {
+        // A key that is present but holds `None` is unset, too (see `clear`).
+        if self.inner.get(key.as_ref()).cloned().flatten().is_none() {
             self.set_rule_enabled(key.as_ref().to_string(), val);
         }
     }
